@@ -173,7 +173,8 @@ impl PatternFormatter {
 
   /// Applies left or right padding to the given content.
   fn apply_padding(&self, buf: &mut String, content: &str, padding: i32) {
-    let width = padding.abs() as usize;
+    // `{:>width$}` panics above u16::MAX and `abs()` overflows on i32::MIN: clamp instead.
+    let width = (padding.unsigned_abs() as usize).min(u16::MAX as usize);
     if content.len() >= width {
       buf.push_str(content);
       return;
